@@ -2,9 +2,52 @@ import Driver.Store
 namespace Driver.C04
 open Siot Siot.Store Driver Driver.StoreD
 
+/-- a file that went through first-time initialisation once: exactly one root edge root→R and nothing else but (at
+    most one) admin user below R. (An image taken after the root edge's transaction and before the admin user's
+    recovers WITHOUT the admin user, for good — the property does not speak about that user, so it is not judged.) -/
+def freshShape (st : St) : Bool :=
+  (st.edges.filter (fun e => e.up == rootS)).length == 1 &&
+    (st.edges.filter (fun e => e.up == rootS && e.down == strBytes "R")).length == 1 && st.root == strBytes "R" &&
+    (st.edges.filter (fun e => e.up != rootS)).all (fun e => e.up == strBytes "R" && e.typ == strBytes "user") &&
+    (st.edges.filter (fun e => e.up != rootS)).length ≤ 1
+
+/-- snapshot cases: crash images taken at every row change, each re-opened; entry = k %% flags %% dump -/
+def handleSnap (opsS : String) (impl : String) : Verdict :=
+  match impl.splitOn " ## " with
+  | ["S", d0, acksS, _n, entriesS] =>
+    match parseOps opsS, parseDump d0 with
+    | some ops, some st0 =>
+      let acks := if acksS == "-" then [] else acksS.splitOn ","
+      let modelAcks := (runOps st0 ops).2
+      let entries := if entriesS == "" || entriesS == "-" then [] else entriesS.splitOn " @@ "
+      let judge := fun (e : String) => match e.splitOn "%%" with
+        | [kS, flags, dump] =>
+          let flagsOk := flags == "open=ok root=same key=same post=ok"
+          (match kS.toInt?, parseDump dump with
+           | some k, some implSt =>
+             if !flagsOk then "class=store-does-not-reopen"
+             else if !hashInv implSt then "class=hashes-out-of-step"
+             else if k < 0 then (if freshShape implSt then "" else "class=initialisation-not-atomic")
+             else
+               let sk := (runOps st0 (ops.take k.toNat)).1
+               let sk1 := (runOps st0 (ops.take (k.toNat + 1))).1
+               if dumpStr sk == dump || dumpStr sk1 == dump then "" else "class=batch-torn-or-acknowledged-write-lost"
+           | _, _ => "class=store-does-not-reopen")
+        | _ => "class=store-does-not-reopen"
+      let bad := (entries.map judge).filter (· != "")
+      let acksOk := acks == modelAcks
+      let ok := bad.isEmpty && acksOk && !entries.isEmpty
+      { model := if ok then impl else "S ## " ++ d0 ++ " ## " ++ ",".intercalate modelAcks ++ " ## every image recovers to a prefix state",
+        spec := some ok,
+        note := if ok then s!"info=images-distinct-{entries.length}" else if !acksOk then "class=model-disagrees-on-acceptance"
+          else bad.headD "class=no-images" }
+    | _, _ => bad "C04 snap parse"
+  | _ => bad "C04 snap obs"
+
 def handle (args : List String) (impl : String) : Verdict :=
   match args with
   | [c] =>
+    if c.startsWith "s|" then handleSnap (c.drop 2).toString impl else
     match c.splitOn "|", impl.splitOn " ## " with
     | [kill, opsS], [d0, acksS, flags, dump] =>
       match parseOps opsS with
